@@ -41,6 +41,7 @@ def run(facts, rep):
     d1_list(facts, rep)
     d2_buckets(facts, rep)
     d3_skiplist(facts, rep)
+    d4_dispose_once(facts, rep)
 
 
 def d1_list(facts, rep):
@@ -261,3 +262,32 @@ def d3_skiplist(facts, rep):
             ok = ok and every_path_passes(fn, (fn.blocks[b]['succ'][si], -1), lambda p, e: p in set(c[0] for c in dl))[0]
         rep.ob('D3', 'K3', fn, 'a rejected node is deleted exactly when the insertion failed', ok, 'rejected node leaked / inserted node deleted')
     rep.floor('D3', 7, 'skip list insert')
+
+
+
+# ---------------------------------------------------------------------------------------------------------------
+def d4_dispose_once(facts, rep):
+    """Every caller of internal_insert handles ONE node (the one its factory creates or hands in).  When the insertion
+    is rejected, internal_insert returns that node as `remaining_node` -- the same node the caller may still hold in a
+    variable.  So on any single path after the internal_insert call at most one node-disposal call site may be passed:
+    two sites on one path free the same node twice (the loser of a same-key race).  Same for the skip list."""
+    U = ub(facts)
+    S = sl(facts)
+    n = 0
+    for cls_prefix, callee, disposers in ((U, 'internal_insert', ('destroy_node',)),
+                                          (S, 'internal_insert_node', ('delete_value_node', 'destroy_node')),
+                                          (S, 'internal_insert', ('delete_value_node', 'destroy_node'))):
+        for fn in facts.fns.values():
+            if not fn.p.startswith(cls_prefix):
+                continue
+            ins = [c for c in calls(fn) if (c[3] or {}).get('p', '').startswith(cls_prefix) and c[3]['n'] == callee]
+            if not ins:
+                continue
+            ds = [c for c in calls_named(fn, disposers) if any(fn.can_reach(i[0], c[0]) for i in ins)]
+            bad = [(a, b) for a in ds for b in ds if a[0] != b[0] and fn.can_reach(a[0], b[0])]
+            n += 1
+            rep.ob('D4', 'K3', fn, 'after %s() the rejected node is disposed of at most once on every path' % callee, not bad,
+                   'a path passes two disposal sites (%s): the node returned as remaining_node is the caller\'s own node, so the loser of a '
+                   'same-key race destroys its element twice and frees the node twice'
+                   % ', '.join('line %s' % x[2]['ln'] for x in (bad[0] if bad else ())))
+    rep.floor('D4', 4, 'callers of internal_insert / internal_insert_node')
